@@ -1,12 +1,18 @@
 #!/bin/bash
 # seed_all.sh <ID> : confirm every /tmp/seed/<ID>-out/mK in the scratch worktree, store it under /verif/seeded/, run the check against it
 ID=$1; WT=/tmp/seed/$ID-wt
+# the scratch worktree follows /repo's HEAD (fix commits may have been made since the seed was produced)
+git -C $WT checkout -q -- . ; git -C $WT clean -fdq; git -C $WT checkout -q --detach $(git -C /repo rev-parse HEAD)
 for D in /tmp/seed/$ID-out/m*; do
   M=$(basename $D); S=/verif/seeded/$ID-$M
   [ -f $D/patch.diff ] || continue
   git -C $WT checkout -q -- . ; git -C $WT clean -fdq
   /venv/bin/python $D/demo.py $WT >/dev/null 2>&1; P0=$?
-  git -C $WT apply $D/patch.diff || { echo "$ID-$M APPLY-FAILED"; continue; }
+  if ! git -C $WT apply $D/patch.diff 2>/dev/null; then
+    # context moved by a later fix commit: re-apply with fuzz and keep the refreshed diff
+    (cd $WT && patch -p1 --fuzz=3 -s < $D/patch.diff && find . -name "*.orig" -delete) || { echo "$ID-$M APPLY-FAILED"; git -C $WT checkout -q -- .; git -C $WT clean -fdq; continue; }
+    git -C $WT diff > $D/patch.diff; echo "patch.diff refreshed against /repo $(git -C /repo rev-parse --short HEAD) (context only)" >> $D/notes.md
+  fi
   T=$(cd $WT && PYTHONPATH=$WT/src /venv/bin/python -m pytest -q -p no:cacheprovider --continue-on-collection-errors 2>&1 | grep -v condarc | tail -1)
   /venv/bin/python $D/demo.py $WT >/dev/null 2>&1; P1=$?
   git -C $WT checkout -q -- . ; git -C $WT clean -fdq
